@@ -361,7 +361,7 @@ def main():
         vres.append(r)
     kcfgs = P.get('kani', [])
     bncfgs = P.get('bounded_native', [])
-    ocfgs = P.get('oracles', []) + bncfgs
+    ocfgs = P.get('oracles', []) + [b for b in bncfgs if not b.get('shared_with_oracle')]
     wr = None
     kres = None
     if kcfgs:
@@ -655,7 +655,7 @@ def replay_file(pid, P, path, work):
         return 2
     log('[%s] replay of %s' % (pid, path))
     log(json.dumps({k: rep[k] for k in ('failed_obligations',) if k in rep}, indent=1)[:3000])
-    wr = prepare_workrepo(work, P.get('kani', []), P.get('oracles', []) + P.get('bounded_native', []), P.get('side'))
+    wr = prepare_workrepo(work, P.get('kani', []), P.get('oracles', []) + [b for b in P.get('bounded_native', []) if not b.get('shared_with_oracle')], P.get('side'))
     rc = 0
     for ce in rep.get('counterexamples', []):
         nr = ce.get('native_replay')
